@@ -57,7 +57,8 @@ def write_files(sc, work):
         name = os.path.join(work, fnames[n])
         make_roms(name, imax=imax, jmax=jmax, N=N, times=sc["ftimes"][a:b], mask=np.array(sc["M"], float),
                   h=np.array(sc["H"], float), hc=0.0,
-                  dx=sc.get("dx", 128.0) * (2.0 if (n > 0 and sc.get("grid_variant_in_later_files")) else 1.0), dy=sc.get("dy"),
+                  dx=(np.array(sc["dxarr"], float) if sc.get("dxarr") else sc.get("dx", 128.0) * (2.0 if (n > 0 and sc.get("grid_variant_in_later_files")) else 1.0)),
+                  dy=(np.array(sc["dyarr"], float) if sc.get("dyarr") else sc.get("dy")),
                   U=U, V=V, S=S, W=W, pack=((2.0 ** -10, 2.0 ** -9) if sc["pack"] else None),      # u and v packed with different scale factors
                   spack=((0.5, 100.0) if sc.get("spack") else None))      # scalar packed with a non-trivial scale and offset
         names.append(name)
